@@ -110,7 +110,7 @@ var commonReal = []string{
 var commonStub = []string{
 	"wall clock/timers: testing/synctest fake clock",
 	"crypto/rand: seeded stream (cryptotest.SetGlobalRandom) in non-race builds",
-	"Symantec VIP service, LDAP wire, SMTP: simulated backends behind entry hooks; Okta authentication API: simulated service behind http.DefaultClient's transport (the real lib/authenticators/okta and /api/v0/okta* handlers run against it); OAuth2 identity provider for federated login: simulated token and userinfo endpoints behind the same transport (real golang.org/x/oauth2 exchange and the real login/callback handlers)",
+	"Symantec VIP service, LDAP wire, SMTP: simulated backends behind entry hooks; Okta authentication API: simulated service behind http.DefaultClient's transport (the real lib/authenticators/okta and /api/v0/okta* handlers run against it); OAuth2 identity provider for federated login: simulated token and userinfo endpoints behind the same transport (real golang.org/x/oauth2 exchange and the real login/callback handlers); AWS STS for cloud-role certificates: simulated GetCallerIdentity validation of presigned URLs behind the same transport (real aws_identity_cert issuer and presign caller)",
 	"TCP/TLS transport: requests built in-process; VerifiedChains produced by x509.Verify against the server's ClientCAPool as crypto/tls would",
 	"external password helper (external_auth_command): a real child process (fixtures/authhelper.sh) whose fate the plan decides (exit 0/1, dies from a signal, other exit status)",
 	"post-unseal steps inlined in main() (CA pool completion, password-cache storage hookup) are re-implemented in the harness",
@@ -139,7 +139,7 @@ func init() {
 		Assume: []string{"the client's main() (flag parsing, config-file bootstrap, user lookup) is not run: the run starts at setupCerts with a constructed configuration; the terminal is a regular file the harness rewrites before each prompt; U2F-over-USB second factors are not exercised (no HID device in the bubble)"}})
 	addSpec(&propSpec{ID: "C20", Level: "fault_enumeration", QuickRuns: 480, ThorRuns: 12000, QuickSecs: 75, ThorSecs: 900,
 		Assume: []string{"the subscriber side decodes the notifier's stream with encoding/json exactly as eventmon/monitord.receiveV0 does; the 40-line glue of cmd/keymaster-eventmond (monitor channels -> recorder channels) is not exercised: events are fed to the recorder's public channels directly",
-			"the AWS-role issuing path is not registered without AWS configuration and is not exercised"}})
+			"the AWS Organisations account listing (list_accounts_role) is not exercised: allowed accounts are configured statically"}})
 	addSpec(&propSpec{ID: "C16", Level: "exploration", Race: true, QuickRuns: 480, ThorRuns: 12000, QuickSecs: 90, ThorSecs: 1200})
 	addSpec(&propSpec{ID: "C15", Level: "fault_enumeration", QuickRuns: 96, ThorRuns: 4000, QuickSecs: 75, ThorSecs: 900,
 		Assume: []string{"SQLite's own atomic commit is trusted: torn or lost page writes below SQLite are not simulated (the files live on the real file system / tmpfs)",
